@@ -299,3 +299,25 @@ package store
 //@   set rdbMuxHeld = 1 at call Lock optional
 //@   set rdbMuxHeld = 0 at call Unlock optional
 //@   ensures unlocked: rdbMuxHeld == 0
+
+// ---- setting the run id the cache already has keeps its index (C05) ----------------------------
+// The index carries the reference counts of the open readers and writers; rebuilding it from the
+// directory for an unchanged id would drop them (the collector would then remove segments under
+// an open reader, which neither delivers nor fails).
+//@ func os.Stat(name) (fi, err)
+//@   trusted library contract (reads the file system only)
+//@   modifies nothing
+//@ func os.IsNotExist(err) (r)
+//@   trusted library contract (pure)
+//@   modifies nothing
+//@ func filepath.Join(elem) (r)
+//@   trusted library contract (pure)
+//@   modifies nothing
+
+//@ func Storer.newRunId
+//@   arith int
+//@   properties C05
+//@   replay store_reindexGc
+//@   requires nonnil: s != nil
+//@   modifies heap
+//@   ensures the_index_of_an_unchanged_run_id_is_kept: result == nil && id != "" && id != "?" && old(s.runId) == id && old(s.dataSet) != nil ==> s.dataSet == old(s.dataSet)
